@@ -21,7 +21,7 @@ m = {
  "hooks": {"guard": "PMODELS_ARGOBOTS_VERIF",
            "enable": "tools/build.py compiles /repo/src/**/*.c + the fcontext .S with -DPMODELS_ARGOBOTS_VERIF into .cache/build/<hash>/libabt_verif.a; drivers link it with -Wl,--wrap=... (no other source change)",
            "baseline_off_cmd": "cd /repo && make -j16 >/dev/null && cd test && make -j8 check",
-           "source_commits": ["ce9aa7f"], "add_only": True},
+           "source_commits": ["ce9aa7f", "e34592b"], "add_only": True},
  "engines": [{"name": "tlc", "path": "/opt/veriftools/tla/tla2tools.jar", "serves_properties": props,
               "kind_free_text": "TLC 1.8.0: exhaustive model checking of spec/**, trace validation of recorded executions (INVARIANT NotAccepted, depth-first queue), oracle evaluation"},
              {"name": "abtv_rt", "path": "harness/abtv_rt.c", "serves_properties": props,
